@@ -242,6 +242,7 @@ Proof.
     apply andb_true_iff in Hu as [Hu Ud]. apply andb_true_iff in Hu as [Hu Uc]. apply andb_true_iff in Hu as [Ua _].
     rewrite !vstmt_try_nohandler. rewrite (er_block3 f H2 Hd Ud), (er_block3 o H1 Hc Uc), (er_block3 b H Ha Ua). reflexivity.
   - reflexivity.
+  - reflexivity.
 Qed.
 
 Lemma er_vblock3 : forall b, s3_block b = true -> ui_block b = true ->
@@ -332,5 +333,6 @@ Proof.
     apply is_nil_true in Hb. subst hs.
     apply andb_true_iff in Hn as [Hn Ud]. apply andb_true_iff in Hn as [Hn Uc]. apply andb_true_iff in Hn as [Ua _].
     rewrite vstmt_try_nohandler. rewrite (pairs_block3 f H2 Hd Ud), (pairs_block3 o H1 Hc Uc), (pairs_block3 b H Ha Ua). reflexivity.
+  - reflexivity.
   - reflexivity.
 Qed.
